@@ -788,9 +788,9 @@ func streamC01(c *Ctx) {
 	// path arguments, boundary numbers.  They are hand-picked, so the `dangerous` filter does not apply.
 	handPicked = true
 	for _, f := range firstBlocks() {
-		per := map[string]int{"regress": len(f.ins), "scope": 2, "callee": 3, "boundary": 2, "marker": 2, "opt": 3, "redef": 2}[f.name]
+		per := map[string]int{"regress": len(f.ins), "scope": 2, "callee": 3, "boundary": 2, "marker": 2, "opt": 3, "redef": 2, "pattern": 2, "label": 2}[f.name]
 		for i, src := range f.progs {
-			if quick && (f.name == "scope" || f.name == "marker") && i%3 != int(c.Seed%3) {
+			if quick && (f.name == "scope" || f.name == "marker" || f.name == "pattern") && i%3 != int(c.Seed%3) {
 				continue // a third per quick run; everything in the thorough tier
 			}
 			if quick {
